@@ -12,6 +12,7 @@ import (
 	"bytes"
 	"flag"
 	"fmt"
+	"html/template"
 	"io"
 	"os"
 	"sort"
@@ -682,24 +683,31 @@ type c16Format struct {
 	name string
 	mk   func() tabular.Table
 	to   func(t tabular.Table, w io.Writer) error
+	// toID (if set) is used instead of to: the renderer is configured with something specific to the thread
+	toID func(t tabular.Table, w io.Writer, id int) error
 }
 
 func c16Formats() []c16Format {
 	return []c16Format{
-		{"csv", func() tabular.Table { return csv.New() }, func(t tabular.Table, w io.Writer) error { return csv.Wrap(t).RenderTo(w) }},
-		{"json", func() tabular.Table { return tjson.New() }, func(t tabular.Table, w io.Writer) error { return tjson.Wrap(t).RenderTo(w) }},
-		{"markdown", func() tabular.Table { return markdown.New() }, func(t tabular.Table, w io.Writer) error { return markdown.Wrap(t).RenderTo(w) }},
-		{"html", func() tabular.Table { return thtml.New() }, func(t tabular.Table, w io.Writer) error {
-			return thtml.Wrap(t).SetRowClassGenerator(rowClassGen, nil).RenderTo(w)
+		{name: "csv", mk: func() tabular.Table { return csv.New() }, to: func(t tabular.Table, w io.Writer) error { return csv.Wrap(t).RenderTo(w) }},
+		{name: "json", mk: func() tabular.Table { return tjson.New() }, to: func(t tabular.Table, w io.Writer) error { return tjson.Wrap(t).RenderTo(w) }},
+		{name: "markdown", mk: func() tabular.Table { return markdown.New() }, to: func(t tabular.Table, w io.Writer) error { return markdown.Wrap(t).RenderTo(w) }},
+		{name: "html", mk: func() tabular.Table { return thtml.New() }, toID: func(t tabular.Table, w io.Writer, id int) error {
+			// every thread has its OWN row-class generator and caption
+			ht := thtml.Wrap(t).SetRowClassGenerator(func(n int, ctx interface{}) template.HTMLAttr {
+				return template.HTMLAttr(fmt.Sprintf("t%d-r%d", id, n))
+			}, nil)
+			ht.Caption = fmt.Sprintf("caption of thread %d", id)
+			return ht.RenderTo(w)
 		}},
-		{"text(named utf8-light)", func() tabular.Table { return texttable.New() }, func(t tabular.Table, w io.Writer) error {
+		{name: "text(named utf8-light)", mk: func() tabular.Table { return texttable.New() }, to: func(t tabular.Table, w io.Writer) error {
 			tt := texttable.Wrap(t)
 			if _, err := tt.SetDecorationNamed("utf8-light"); err != nil {
 				return err
 			}
 			return tt.RenderTo(w)
 		}},
-		{"text(custom)", func() tabular.Table { return tabular.New() }, func(t tabular.Table, w io.Writer) error {
+		{name: "text(custom)", mk: func() tabular.Table { return tabular.New() }, to: func(t tabular.Table, w io.Writer) error {
 			tt := texttable.Wrap(t)
 			tt.SetDecoration(customDecoration())
 			return tt.RenderTo(w)
@@ -730,7 +738,12 @@ func c16Body(f c16Format, id int, tmpl *tabular.Cell, out *[]string, yield func(
 	for r := 0; r < 2; r++ {
 		yield("RenderTo")
 		w := &pointWriter{id: tag}
-		err := f.to(t, w)
+		var err error
+		if f.toID != nil {
+			err = f.toID(t, w, id)
+		} else {
+			err = f.to(t, w)
+		}
 		*out = append(*out, fmt.Sprintf("render %d: err=%v\n%s", r+1, err, w.buf.String()))
 	}
 	var stamps []string
